@@ -448,15 +448,17 @@ pub fn digest_batch(prop: &dyn Property, seed: u64, runs: u64, threads: usize, t
                 let i = next.fetch_add(1, Ordering::Relaxed);
                 if i >= runs { break; }
                 let mut src = Src::record(mix(seed, i));
-                let ctx = RunCtx { tier, trace: false, findings: &findings, index: i };
+                let tr = std::env::var("VERIF_SELFTEST_TRACE_RUN").ok().and_then(|s| s.parse::<u64>().ok()) == Some(i);
+                let ctx = RunCtx { tier, trace: tr, findings: &findings, index: i };
                 let h = match exec(prop, &mut src, &ctx) {
                     Exec::Report(rep) => {
+                        if tr { for l in &rep.trace { println!("trace {}", l); } println!("trace sample {:?}", rep.sample); }
                         let mut h = super::tape::fnv(rep.fingerprint, &rep.evals.to_le_bytes());
                         h = super::tape::fnv(h, &rep.steps.to_le_bytes());
                         for v in &rep.violations { h = super::tape::fnv(h, v.key.as_bytes()); }
                         for f in &rep.sub_fps { h = super::tape::fnv(h, &f.to_le_bytes()); }
                         let (tape, _) = src.into_tape();
-                        if std::env::var("VERIF_SELFTEST_DEBUG").is_ok() && i < 3 { println!("dbg run {} fp={:x} evals={} steps={} viol={:?} subfps={:?} tape={}", i, rep.fingerprint, rep.evals, rep.steps, rep.violations.iter().map(|v| v.key.clone()).collect::<Vec<_>>(), rep.sub_fps.iter().take(6).collect::<Vec<_>>(), tape.len()); }
+                        if std::env::var("VERIF_SELFTEST_DEBUG").is_ok() && (i < 3 || std::env::var("VERIF_SELFTEST_DEBUG").as_deref() == Ok("2")) { println!("dbg run {} fp={:x} evals={} steps={} viol={:?} subfps={:?} tape={}", i, rep.fingerprint, rep.evals, rep.steps, rep.violations.iter().map(|v| v.key.clone()).collect::<Vec<_>>(), rep.sub_fps.iter().take(6).collect::<Vec<_>>(), tape.len()); }
                         super::tape::fnv(h, &(tape.len() as u64).to_le_bytes())
                     }
                     Exec::HarnessPanic(_) => 0xdead,
